@@ -3,6 +3,7 @@
 //!
 //! usage: rs2lean --src konst_kernel=<expanded.rs> --src konst=<expanded.rs>
 //!                --targets targets.txt --out <dir>   [--only <group>]
+mod alpha;
 mod index;
 mod tr;
 mod ty;
@@ -132,6 +133,16 @@ fn main() {
                 }
                 if let Some(o) = seen.insert(t.lean_name.clone(), t.rust_path.clone()) {
                     panic!("targets `{}` and `{}` get the same Lean name `{}`: use `as`", o, t.rust_path, t.lean_name);
+                }
+            }
+        }
+    }
+    {
+        let mut r = tr::RESERVED.lock().unwrap();
+        for g in &groups {
+            for t in &g.targets {
+                if t.kind == TargetKind::Fn && !t.lean_name.contains('.') {
+                    r.push(t.lean_name.clone());
                 }
             }
         }
